@@ -319,6 +319,7 @@ def _execute(scn, ctx, store, rng):
                 rng.seed(scn['rng_state'] + ti)
             else:
                 # "with a fixed seed": the evaluation itself must re-seed; whatever other code drew in between is noise
+                rng.mark(budget=rngsim.HARD_CAP)      # (the base run may have ended on its draw budget)
                 numpy.random.rand(3)
                 ctx.count('fire:noise_between_base_and_permuted_run')
             rng.mark(budget=rngsim.HARD_CAP)
